@@ -100,6 +100,16 @@ def pa_setup(ctx, faults=False):
     pm = ParserModel(ctx, faults=faults)
     ns_given = ctx.choose(2, "namespace-given") == 1
     namespace = cfg("NAMESPACE") if ns_given else None
+    # defaults=False without environment gives an *empty* base configuration (a falsy Namespace): the namespace given is merged all the same
+    base_empty = ctx.choose(2, "the-base-configuration(defaults+environment)-is-empty") == 1
+    if base_empty:
+        def pde(c, s_, a, k):
+            c.event("call", "_parse_defaults_and_environ", a, dict(k))
+            r = cfg(("defaults+env", a[0] if a else k.get("defaults", True), a[1] if len(a) > 1 else k.get("env")))
+            r.truthy = False
+            return r
+        if not faults:
+            pm.rec.methods["_parse_defaults_and_environ"] = pde
     args = ["--a=1"]
     env = {"self": pm.rec, "args": args, "namespace": namespace, "env": None, "defaults": True, "with_meta": None, "kwargs": {}}
     cms = {"_ActionSubCommands.parse_kwargs_context": noop_cm("parse_kwargs_context")}
@@ -114,6 +124,8 @@ def pa_post(ctx, st, result):
     ctx.oblige("post", "argparse-is-seeded-with-ov(ov(defaults, env), namespace)", len(known) == 1 and expr_of(known[0][3].get("namespace")) == seed, note=str([expr_of(e[3].get("namespace")) for e in known]))
     ctx.oblige("post", "leftover-arguments-are-never-accepted", not any(x == "leftover-arguments=1" for x in ctx.decisions_txt))
     ctx.oblige("post", "returns-what-_parse_common-made-of-the-argv-result", expr_of(result) == ("common", ("argv-applied-left-to-right-on", seed)))
+    if d["ns_given"]:
+        ctx.oblige("frame", "the-namespace-the-caller-gave-is-never-the-object-argparse-writes-into(a merged copy is, also when the base configuration is empty)", len(known) == 1 and known[0][3].get("namespace") is not st.env["namespace"])
 
 
 def po_setup(ctx, faults=False):
